@@ -8,7 +8,7 @@ TRUSTED = [
     "hand-written model props/C20/coq/Model.v of docFieldsFilter.filterFields and of the insane-json v0.1.9 top-level "
     "object operations it drives (Dig linear branch, AsFields/AsFieldValue, Suicide swap-with-last incl. the three chain "
     "writes, actualizeIndex/findSelf dirty-stamp cache, Encode chain walk), and of parsePipes/parseFieldList/"
-    "tryParseFieldsFilter at token level (tied to /repo by the correspondence run, not verified code)",
+    "tryParseFieldsFilter at token level; makeFetchReq as a pure function of the filter (tied to /repo by the correspondence run, not verified code)",
     "Go harness harness/cmd/hC20: generators, the independent JSON oracle (encoding/json token stream with UseNumber; values "
     "canonicalised: numbers as exact rationals, strings decoded, nested keys sorted), rendering of token lists as query text",
     "insane-json decode/encode fidelity (string escaping, number text, nested containers), the SeqQL lexer/quoting, the "
@@ -27,9 +27,11 @@ RULE = ("random JSON objects (0..30 top-level fields; strings with every escape 
         "integer/fraction/exponent/big notations; nested arrays/objects; whitespace variants) x field lists (subset, all, "
         "absent only, present+absent, repeated, single, empty) x allow/except, several documents per pooled filter as in one "
         "fetch; duplicate-key documents; query texts with 0/1/2 pipes, malformed lists, keywords as names, quoted names; "
-        "pages through a real proxy+store (search with pipe, proxy fetch with filter, store Fetch with filter; active and "
-        "sealed). non-trivial = document of >= 3 fields where the filter removes at least one field and keeps at least one / "
-        "pipe with >= 2 names / page of >= 2 documents; distinct by input")
+        "pages through a real proxy with 2-3 store shards, documents spread over the shards, empty-named members, names that "
+        "are prefixes of each other, repeated names in the pipe (search with pipe, proxy fetch with filter, Fetch on every "
+        "store with filter; active and sealed; offsets/sizes/orders); makeFetchReq called for 1-4 sources with ONE filter "
+        "value (requests compared as name sets, caller's filter must be unchanged). non-trivial = document of >= 3 fields where the filter removes at least one field and keeps at least one / "
+        "pipe with >= 2 names / page of >= 2 documents / request set for >= 2 sources from a list with a repeated name; distinct by input")
 
 
 def harness_args(tier, seed, outdir):
